@@ -118,7 +118,7 @@ class QueueCheck:
             viol = (f'responses {show(out)!r} differ from the reference FIFO\'s {show(exp_out)!r}', m)
         else:
             # what is left in the queue
-            left = dev.f[1].f[0].items
+            left = w.queue_items(dev)
             if len(left) != len(fifo) or len(left) > s.cap:
                 viol = (f'{len(left)} entries left in the queue, reference has {len(fifo)} (capacity {s.cap})', None)
         return {'viol': viol, 'overflowed': any(e == ('unit', 'QueueOverflow') for e in fifo) or 'QueueOverflow' in show(exp_out)}
